@@ -34,7 +34,9 @@ PBUILD = os.path.join(WORK, "pbuild") if REPO == "/repo" else os.environ.get("VE
 COQ = os.path.join(VERIF, "coq")
 _SFX = "" if REPO == "/repo" else "-" + hashlib.sha1(REPO.encode()).hexdigest()[:8]
 BIN = os.path.join(WORK, "bin" + _SFX)
-CASES = os.path.join(WORK, "cases" + _SFX)
+# one case directory per process: two runs of the same check (another tier, another caller) must not
+# overwrite each other's case files between the harness run and the model run
+CASES = os.path.join(WORK, "cases" + _SFX, "p%d" % os.getpid())
 EVID = os.path.join(VERIF, "evidence") if REPO == "/repo" else os.path.join(WORK, "evidence" + _SFX)
 REPLAYS = os.path.join(VERIF, "replays") if REPO == "/repo" else os.path.join(WORK, "replays" + _SFX)
 GUARD = "ICLDISCO_PARSEC_VERIF"
